@@ -126,11 +126,31 @@ def Op.isWrite : Op → Bool
   | .write | .writev | .send | .sendto | .sendmsg => true
   | _ => false
 
+def Op.isAccept : Op → Bool
+  | .accept => true
+  | _ => false
+
+def Op.isConnect : Op → Bool
+  | .connect => true
+  | _ => false
+
+def Op.isSocket : Op → Bool
+  | .socket => true
+  | _ => false
+
+def Op.isSocketpair : Op → Bool
+  | .socketpair => true
+  | _ => false
+
+def Op.isPipe : Op → Bool
+  | .pipe => true
+  | _ => false
+
 /-- the calls that may suspend the fiber -/
-def Op.blocker (o : Op) : Bool := o.isRead || o.isWrite || o == .accept || o == .connect
+def Op.blocker (o : Op) : Bool := o.isRead || o.isWrite || o.isAccept || o.isConnect
 
 /-- the epoll direction a blocked call waits for -/
-def Op.dir (o : Op) : Nat := if o.isRead || o == .accept then EPIN else EPOUT
+def Op.dir (o : Op) : Nat := if o.isRead || o.isAccept then EPIN else EPOUT
 
 structure Call where
   op : Op
@@ -314,7 +334,7 @@ def headOf (l : List Nat) : Nat := l.headD 0
 /-- may the shim retry after this result? -/
 def retryable (o : Op) (r : Res) : Bool :=
   match r with
-  | .err e => if o == .connect then e == EINPROGRESS else e == EAGAIN
+  | .err e => if o.isConnect then e == EINPROGRESS else e == EAGAIN
   | .ok _ => false
 
 /-- first state of an invocation -/
@@ -344,7 +364,7 @@ def afterSbTrue (D : Decisions) (c : Call) (fromTop : Bool) : Pc :=
 /-- state after the kernel answered the underlying call (`n` = number of underlying calls so far) -/
 def afterSys (D : Decisions) (maxFd : Int) (c : Call) (r : Res) (n : Nat) : Pc :=
   let again := retryable c.op r && !c.dw &&
-    (if c.op == .accept && !D.acceptLoops then n == 1 else if c.op == .connect then n == 1 else true)
+    (if c.op.isAccept && !D.acceptLoops then n == 1 else if c.op.isConnect then n == 1 else true)
   if again then
     (if inRange maxFd c.fd then .sbRetry c r else .retv c r)
   else
@@ -354,7 +374,7 @@ def afterSys (D : Decisions) (maxFd : Int) (c : Call) (r : Res) (n : Nat) : Pc :
 
 /-- state after fiber_wait_for_event returned -/
 def afterWait (c : Call) (ok : Bool) : Pc :=
-  if !ok then .retFail c else if c.op == .connect then .soErr c else .doSys c
+  if !ok then .retFail c else if c.op.isConnect then .soErr c else .doSys c
 
 def modeOp (o : Op) : Bool :=
   match o with
@@ -456,8 +476,8 @@ def step (D : Decisions) (s : St) : Ev → Option St
   | .sys f fd r =>
     match s.pc f with
     | .doSys c =>
-      if c.op = .socketpair ∨ c.op = .pipe then none else
-      if c.op = .socket then
+      if c.op.isSocketpair || c.op.isPipe then none else
+      if c.op.isSocket then
         match r with
         | .ok n =>
           -- KernelSpec: a new descriptor is inside [0, max_fd)
@@ -514,11 +534,11 @@ def step (D : Decisions) (s : St) : Ev → Option St
       | .ok _ =>
         if inRange s.maxFd a ∧ inRange s.maxFd b ∧ a ≠ b then
           let s1 := { s with isOpen := updI (updI s.isOpen a true) b true }
-          if c.op = .socketpair then some { s1 with pc := upd s.pc f (.setupFlag c a [b] r) }
-          else if c.op = .pipe then some { s1 with pc := upd s.pc f (.pipeCtl c [a, b] [a, b] r) }
+          if c.op.isSocketpair then some { s1 with pc := upd s.pc f (.setupFlag c a [b] r) }
+          else if c.op.isPipe then some { s1 with pc := upd s.pc f (.pipeCtl c [a, b] [a, b] r) }
           else none
         else none
-      | .err _ => if c.op = .socketpair ∨ c.op = .pipe then some { s with pc := upd s.pc f (.retv c r) } else none
+      | .err _ => if c.op.isSocketpair || c.op.isPipe then some { s with pc := upd s.pc f (.retv c r) } else none
     | _ => none
   | .sysCtl f fd r =>
     -- KernelSpec: F_SETFL on a descriptor that was just created succeeds
@@ -716,7 +736,7 @@ def sys (D : Decisions) (maxFd : Int) : Sys St Ev := { init := init maxFd, step 
 def kernelOk (s : St) : Ev → Bool
   | .sys f fd r =>
     (match s.pc f with
-     | .doSys c => c.op == .socket      -- socket() takes no descriptor
+     | .doSys c => c.op.isSocket        -- socket() takes no descriptor
      | _ => false) || s.isOpen fd || r == .err EBADF
   | _ => true
 
